@@ -31,6 +31,7 @@ var oracles = []struct{ pattern, expr string }{
 	{"#impl.datatype.DecoderFunc.len_preserved", "r1 != nil || r0.Len() == len(ARG0)"},
 	{"#impl.datatype.DecoderFunc.payload_preserved", "r1 != nil || string(r0.Serialize()) == string(ARG0)"},
 	{"#impl.datatype.DecoderFunc.nonnil", "r1 != nil || (r0 != nil && fmt.Sprintf(\"%T\", r0)[0] != '*')"},
+	{"#impl.datatype.DecoderFunc.private", "r1 != nil || func() bool { before := string(r0.Serialize()); for i := range ARG0 { ARG0[i] ^= 0xff }; return string(r0.Serialize()) == before }()"},
 	{"datatype.DecodeTime#post.dyn_type", "fmt.Sprintf(\"%T\", r0) == \"datatype.Time\""},
 }
 
